@@ -272,7 +272,8 @@ pub fn def() -> CheckDef {
                accounts, (2) drain replay on a clone: update-fees, decrease-all, collect-fees for every position in a generated order interleaved with \
                collect-protocol-fees, every step must succeed (judge: the real SPL Token processor), (3) over every closed run of consecutive swaps by one \
                trader the cumulative (dA, dB) is never >=0 in both with one >0.  Non-trivial history = >=2 positions, a swap crossing an initialized tick, \
-               and a decrease/collect/reposition after it; non-trivial run = >=3 consecutive swaps.  Distinct = hash of the case.",
+               and a decrease/collect/reposition after it; non-trivial run = >=3 consecutive swaps.  Distinct = hash of the case.  Liquidity of an increase is \
+               drawn by magnitude or as the exact inverse image of a token amount on a boundary of the u64 result type (0,1,2,2^32-1,2^32,2^63-1,2^63,2^64-2,2^64-1,2^64,2^64+1).",
         assumptions: vec!["nsvm runtime, shims and SPL processors as in DESIGN.md §5", "one instruction per transaction"],
         subs: vec![
             sub("histories", 8000, 150_000, case_strategy, |c: &SolvencyCase, l: &mut Local| check_case(c, l)),
